@@ -362,6 +362,216 @@ theorem edge_crossing_complete (s : Seg) (A B : Pt) (t : Rat)
     rw [← ht]
     simp [h01, hon]
 
+/-! ### even–odd rule along the segment -/
+
+theorem sideOf_lerp2 (s : Seg) (A B : Pt) (l : Rat) :
+    sideOf s (lerp2 A B l) = sideOf s A + l * (sideOf s B - sideOf s A) := by
+  simp only [sideOf, lerp2, cross, Pt.sub]; ring
+
+theorem onSeg_lerp2 (A B : Pt) (l : Rat) (h0 : 0 ≤ l) (h1 : l ≤ 1) : onSeg A B (lerp2 A B l) = true := by
+  rw [onSeg_iff]
+  constructor
+  · simp only [cross, Pt.sub, lerp2]; ring
+  · have : dot ((lerp2 A B l).sub A) ((lerp2 A B l).sub B)
+        = -(l * (1 - l)) * dot (B.sub A) (B.sub A) := by
+      simp only [dot, Pt.sub, lerp2]; ring
+    rw [this]
+    have h2 : 0 ≤ dot (B.sub A) (B.sub A) := by
+      simp only [dot]; exact add_nonneg (mul_self_nonneg _) (mul_self_nonneg _)
+    have h3 : 0 ≤ l * (1 - l) := mul_nonneg h0 (by linarith)
+    nlinarith [mul_nonneg h3 h2]
+
+/-- the hit ratio of a spanning edge is in [0,1] and the hit point is on the line of `s` -/
+theorem spans_ratio (s : Seg) (e : Pt × Pt) (hs : spans s e = true) :
+    sideOf s e.1 - sideOf s e.2 ≠ 0 ∧ 0 ≤ sideOf s e.1 / (sideOf s e.1 - sideOf s e.2) ∧
+      sideOf s e.1 / (sideOf s e.1 - sideOf s e.2) ≤ 1 := by
+  simp only [spans, bne_iff_ne, ne_eq, decide_eq_decide] at hs
+  generalize sideOf s e.1 = a at *
+  generalize sideOf s e.2 = b at *
+  by_cases ha : 0 < a
+  · have hb : ¬ 0 < b := fun hb => hs ⟨fun _ => hb, fun _ => ha⟩
+    have hd : 0 < a - b := by linarith [not_lt.mp hb]
+    refine ⟨ne_of_gt hd, div_nonneg ha.le hd.le, ?_⟩
+    rw [div_le_one hd]; linarith [not_lt.mp hb]
+  · have hb : 0 < b := by
+      by_contra hb
+      exact hs ⟨fun h => absurd h ha, fun h => absurd h hb⟩
+    have hd : a - b < 0 := by linarith [not_lt.mp ha]
+    refine ⟨ne_of_lt hd, div_nonneg_of_nonpos (not_lt.mp ha) hd.le, ?_⟩
+    rw [div_le_one_of_neg hd]; linarith
+
+theorem ratio_cancel (a b : Rat) (h : a - b ≠ 0) : a + a / (a - b) * (b - a) = 0 := by
+  field_simp
+  ring
+
+/-- a spanning edge is met by the line of `s` at the parameter `hitParam` -/
+theorem spans_hit_onSeg (s : Seg) (e : Pt × Pt) (hdd : dot (s.q.sub s.p) (s.q.sub s.p) ≠ 0)
+    (hs : spans s e = true) : onSeg e.1 e.2 (s.at (hitParam s e)) = true := by
+  obtain ⟨hne, h0, h1⟩ := spans_ratio s e hs
+  have hline : cross (s.q.sub s.p)
+      ((lerp2 e.1 e.2 (sideOf s e.1 / (sideOf s e.1 - sideOf s e.2))).sub s.p) = 0 := by
+    have := sideOf_lerp2 s e.1 e.2 (sideOf s e.1 / (sideOf s e.1 - sideOf s e.2))
+    rw [ratio_cancel _ _ hne] at this
+    exact this
+  obtain ⟨hx, hy⟩ := param_spec s _ hdd hline
+  have heq : s.at (hitParam s e) = lerp2 e.1 e.2 (sideOf s e.1 / (sideOf s e.1 - sideOf s e.2)) := by
+    unfold hitParam
+    generalize lerp2 e.1 e.2 (sideOf s e.1 / (sideOf s e.1 - sideOf s e.2)) = Q at *
+    obtain ⟨qx, qy⟩ := Q
+    simp only [Seg.at, Pt.mk.injEq] at *
+    constructor <;> linarith
+  rw [heq]
+  exact onSeg_lerp2 e.1 e.2 _ h0 h1
+
+theorem oddAlong_congr (s : Seg) (es : List (Pt × Pt)) (t1 t2 : Rat)
+    (h : ∀ e ∈ es, rayHitsAlong s e t1 = rayHitsAlong s e t2) : oddAlong s es t1 = oddAlong s es t2 := by
+  induction es with
+  | nil => rfl
+  | cons e es ih =>
+    simp only [oddAlong]
+    rw [h e (by simp), ih (fun e' he' => h e' (List.mem_cons_of_mem _ he'))]
+
+/-- the parity of the crossings ahead is the same at two parameters if the segment does not meet
+    the boundary strictly after the first and up to the second -/
+theorem oddAlong_const (s : Seg) (es : List (Pt × Pt)) (hdd : dot (s.q.sub s.p) (s.q.sub s.p) ≠ 0)
+    (t1 t2 : Rat) (h12 : t1 ≤ t2) (hoff : ∀ u, t1 < u → u ≤ t2 → onBoundaryE es (s.at u) = false) :
+    oddAlong s es t1 = oddAlong s es t2 := by
+  apply oddAlong_congr
+  intro e he
+  simp only [rayHitsAlong]
+  by_cases hs : spans s e = true
+  · simp only [hs, Bool.true_and]
+    by_cases h1 : t1 < hitParam s e
+    · by_cases h2 : t2 < hitParam s e
+      · simp [h1, h2]
+      · exfalso
+        have hb := hoff (hitParam s e) h1 (not_lt.mp h2)
+        have : onBoundaryE es (s.at (hitParam s e)) = true := by
+          simp only [onBoundaryE, List.any_eq_true]
+          exact ⟨e, he, spans_hit_onSeg s e hdd hs⟩
+        rw [this] at hb; cases hb
+    · by_cases h2 : t2 < hitParam s e
+      · exact absurd (lt_of_le_of_lt h12 h2) h1
+      · simp [h1, h2]
+  · simp [hs]
+
+/-! ### candidate pieces (consecutive cut parameters) -/
+
+theorem dd_ne_zero (s : Seg) (h : s.p ≠ s.q) : dot (s.q.sub s.p) (s.q.sub s.p) ≠ 0 := by
+  intro h0
+  obtain ⟨hx, hy⟩ := dot_self_eq_zero _ h0
+  simp only [Pt.sub] at hx hy
+  apply h
+  obtain ⟨⟨px, py⟩, ⟨qx, qy⟩⟩ := s
+  simp only at hx hy
+  simp only [Pt.mk.injEq]
+  constructor <;> linarith
+
+theorem cuts_in01 (s : Seg) (es : List (Pt × Pt)) (c : Rat) (hc : c ∈ cutsE s es) : 0 ≤ c ∧ c ≤ 1 := by
+  unfold cutsE at hc
+  rw [mem_sortU] at hc
+  rcases List.mem_cons.mp hc with rfl | hc
+  · constructor <;> decide
+  rcases List.mem_cons.mp hc with rfl | hc
+  · constructor <;> decide
+  obtain ⟨e, _, he⟩ := (mem_crossingsE s es c).mp hc
+  have := crossingsEdge_in01 s e c he
+  simpa [in01] using this
+
+theorem cuts_sorted (s : Seg) (es : List (Pt × Pt)) : (cutsE s es).Pairwise (· < ·) := by
+  unfold cutsE; exact pairwise_sortU _
+
+theorem mem_cuts_of_crossing (s : Seg) (es : List (Pt × Pt)) (c : Rat) (hc : c ∈ crossingsE s es) :
+    c ∈ cutsE s es := by
+  unfold cutsE
+  rw [mem_sortU]
+  exact List.mem_cons_of_mem _ (List.mem_cons_of_mem _ hc)
+
+theorem pair_facts (s : Seg) (es : List (Pt × Pt)) (a b : Rat) (h : (a, b) ∈ pairs (cutsE s es)) :
+    0 ≤ a ∧ a < b ∧ b ≤ 1 ∧ ∀ c ∈ crossingsE s es, ¬ (a < c ∧ c < b) := by
+  obtain ⟨h1, h2, h3, h4⟩ := pairs_spec _ (cuts_sorted s es) a b h
+  exact ⟨(cuts_in01 s es a h2).1, h1, (cuts_in01 s es b h3).2,
+    fun c hc => h4 c (mem_cuts_of_crossing s es c hc)⟩
+
+/-- if an interior point of a candidate piece lies on a polygon edge, the whole closed piece lies on
+    that edge (the edge is collinear with the segment and overlaps the piece: a transversal edge
+    would have produced a cut parameter inside the piece) -/
+theorem pair_edge_dichotomy (s : Seg) (es : List (Pt × Pt)) (a b : Rat)
+    (hp : (a, b) ∈ pairs (cutsE s es)) (hdd : dot (s.q.sub s.p) (s.q.sub s.p) ≠ 0)
+    (A B : Pt) (he : (A, B) ∈ es) (t : Rat) (hat : a < t) (htb : t < b)
+    (hon : onSeg A B (s.at t) = true) :
+    ∀ u, a ≤ u → u ≤ b → onSeg A B (s.at u) = true := by
+  obtain ⟨h0, hab, h1, hno⟩ := pair_facts s es a b hp
+  have ht01 : in01 t = true := by
+    simp only [in01, Bool.and_eq_true, decide_eq_true_eq]; constructor <;> linarith
+  rcases edge_crossing_complete s A B t hdd ht01 hon with hin | ⟨hDE, hA, hprod, hcA, hcB⟩
+  · exact absurd ⟨hat, htb⟩ (hno t ((mem_crossingsE s _ t).mpr ⟨(A, B), he, hin⟩))
+  · have out : ∀ v, (in01 v = true → v ∈ crossingsEdge s (A, B)) → v ≤ a ∨ b ≤ v := by
+      intro v hv
+      by_cases hv01 : in01 v = true
+      · have := hno v ((mem_crossingsE s _ v).mpr ⟨(A, B), he, hv hv01⟩)
+        by_contra hcon
+        rw [not_or] at hcon
+        exact this ⟨not_le.mp hcon.1, not_le.mp hcon.2⟩
+      · simp only [in01, Bool.and_eq_true, decide_eq_true_eq, not_and_or, not_le] at hv01
+        rcases hv01 with h | h
+        · left; linarith
+        · right; linarith
+    intro u hau hub
+    apply (onSeg_collinear_iff s A B u hdd hDE hA).mpr
+    generalize param s A = tA at *
+    generalize param s B = tB at *
+    rcases mul_nonpos_iff.mp hprod with ⟨h1', h2'⟩ | ⟨h1', h2'⟩
+    · have hA' : tA ≤ a := by rcases out tA hcA with h | h <;> linarith
+      have hB' : b ≤ tB := by rcases out tB hcB with h | h <;> linarith
+      exact mul_nonpos_of_nonneg_of_nonpos (by linarith) (by linarith)
+    · have hA' : b ≤ tA := by rcases out tA hcA with h | h <;> linarith
+      have hB' : tB ≤ a := by rcases out tB hcB with h | h <;> linarith
+      exact mul_nonpos_of_nonpos_of_nonneg (by linarith) (by linarith)
+
+/-- a candidate piece whose midpoint is off the boundary is off the boundary in its whole interior -/
+theorem pair_off_boundary (s : Seg) (es : List (Pt × Pt)) (a b : Rat)
+    (hp : (a, b) ∈ pairs (cutsE s es)) (hdd : dot (s.q.sub s.p) (s.q.sub s.p) ≠ 0)
+    (hmid : onBoundaryE es (s.at ((a + b) / 2)) = false) (t : Rat) (hat : a < t) (htb : t < b) :
+    onBoundaryE es (s.at t) = false := by
+  have hab := (pair_facts s es a b hp).2.1
+  by_contra hb
+  have hb' : onBoundaryE es (s.at t) = true := by simpa using hb
+  simp only [onBoundaryE, List.any_eq_true] at hb'
+  obtain ⟨⟨A, B⟩, he, hon⟩ := hb'
+  have := pair_edge_dichotomy s es a b hp hdd A B he t hat htb hon ((a + b) / 2) (by linarith) (by linarith)
+  have hm : onBoundaryE es (s.at ((a + b) / 2)) = true := by
+    simp only [onBoundaryE, List.any_eq_true]; exact ⟨(A, B), he, this⟩
+  rw [hm] at hmid; cases hmid
+
+/-- a candidate piece whose midpoint is on the boundary lies in the boundary -/
+theorem pair_on_boundary (s : Seg) (es : List (Pt × Pt)) (a b : Rat)
+    (hp : (a, b) ∈ pairs (cutsE s es)) (hdd : dot (s.q.sub s.p) (s.q.sub s.p) ≠ 0)
+    (hmid : onBoundaryE es (s.at ((a + b) / 2)) = true) (t : Rat) (hat : a ≤ t) (htb : t ≤ b) :
+    onBoundaryE es (s.at t) = true := by
+  have hab := (pair_facts s es a b hp).2.1
+  simp only [onBoundaryE, List.any_eq_true] at hmid ⊢
+  obtain ⟨⟨A, B⟩, he, hon⟩ := hmid
+  exact ⟨(A, B), he, pair_edge_dichotomy s es a b hp hdd A B he ((a + b) / 2) (by linarith) (by linarith) hon t hat htb⟩
+
+/-- the status (inside / not inside, even–odd rule along the segment) of every interior point of a
+    candidate piece is that of its midpoint -/
+theorem pair_insideAlong_const (s : Seg) (es : List (Pt × Pt)) (a b : Rat)
+    (hp : (a, b) ∈ pairs (cutsE s es)) (hdd : dot (s.q.sub s.p) (s.q.sub s.p) ≠ 0)
+    (t : Rat) (hat : a < t) (htb : t < b) :
+    insideAlong s es t = insideAlong s es ((a + b) / 2) := by
+  have hab := (pair_facts s es a b hp).2.1
+  by_cases hmid : onBoundaryE es (s.at ((a + b) / 2)) = true
+  · have := pair_on_boundary s es a b hp hdd hmid t hat.le htb.le
+    simp [insideAlong, hmid, this]
+  · have hmid' : onBoundaryE es (s.at ((a + b) / 2)) = false := by simpa using hmid
+    have hoff := pair_off_boundary s es a b hp hdd hmid'
+    have ht := hoff t hat htb
+    simp only [insideAlong, hmid', ht, Bool.not_false, Bool.true_and]
+    rcases le_total t ((a + b) / 2) with h | h
+    · exact oddAlong_const s es hdd t _ h (fun u h1 h2 => hoff u (by linarith) (by linarith))
+    · exact (oddAlong_const s es hdd _ t h (fun u h1 h2 => hoff u (by linarith) (by linarith))).symm
+
 /-! ### Sutherland–Hodgman -/
 
 theorem eval_lerp3 (h : HS) (P Q : P3) (t : Rat) :
@@ -472,5 +682,450 @@ theorem shAux_inside (h : HS) (first : P3) (l : List P3) (hf : h.eval first ≤ 
       simp only [shAux]
       rw [shEdge_inside h a b (hl a (by simp)) (hl b (by simp)), ih (fun P hP => hl P (List.mem_cons_of_mem _ hP))]
       rfl
+
+/-! ### Sutherland–Hodgman in the plane: completeness for convex counter-clockwise polygons -/
+
+/-- consecutive pairs of `cur :: ns` -/
+def zp : Pt → List Pt → List (Pt × Pt)
+  | _, [] => []
+  | cur, n :: r => (cur, n) :: zp n r
+
+def lastOf : Pt → List Pt → Pt
+  | a, [] => a
+  | _, b :: r => lastOf b r
+
+theorem edgesAux_eq_zp (f a : Pt) (rest : List Pt) : edgesAux f (a :: rest) = zp a (rest ++ [f]) := by
+  induction rest generalizing a with
+  | nil => rfl
+  | cons b r ih => simp only [edgesAux, List.cons_append, zp, ih]
+
+theorem edges_eq_zp (a : Pt) (rest : List Pt) : edges (a :: rest) = zp a (rest ++ [a]) :=
+  edgesAux_eq_zp a a rest
+
+theorem lastOf_append_singleton (a : Pt) (l : List Pt) (x : Pt) : lastOf a (l ++ [x]) = x := by
+  induction l generalizing a with
+  | nil => rfl
+  | cons b r ih => simp only [List.cons_append, lastOf, ih]
+
+theorem mem_zp (cur : Pt) (ns : List Pt) (e : Pt × Pt) (he : e ∈ zp cur ns) :
+    e.1 ∈ cur :: ns ∧ e.2 ∈ ns := by
+  induction ns generalizing cur with
+  | nil => cases he
+  | cons n r ih =>
+    simp only [zp, List.mem_cons] at he
+    rcases he with rfl | he
+    · simp
+    · obtain ⟨h1, h2⟩ := ih n he
+      exact ⟨List.mem_cons_of_mem _ h1, List.mem_cons_of_mem _ h2⟩
+
+theorem mem_of_mem_edges (poly : List Pt) (e : Pt × Pt) (he : e ∈ edges poly) :
+    e.1 ∈ poly ∧ e.2 ∈ poly := by
+  cases poly with
+  | nil => cases he
+  | cons a rest =>
+    rw [edges_eq_zp] at he
+    obtain ⟨h1, h2⟩ := mem_zp a _ e he
+    refine ⟨?_, ?_⟩
+    · rcases List.mem_cons.mp h1 with h | h
+      · rw [h]; simp
+      · rcases List.mem_append.mp h with h | h
+        · exact List.mem_cons_of_mem _ h
+        · rw [List.mem_singleton.mp h]; simp
+    · rcases List.mem_append.mp h2 with h | h
+      · exact List.mem_cons_of_mem _ h
+      · rw [List.mem_singleton.mp h]; simp
+
+theorem zp_append_singleton (a : Pt) (l : List Pt) (x : Pt) (e : Pt × Pt) :
+    e ∈ zp a (l ++ [x]) ↔ e ∈ zp a l ∨ e = (lastOf a l, x) := by
+  induction l generalizing a with
+  | nil => simp [zp, lastOf]
+  | cons b r ih =>
+    simp only [List.cons_append, zp, List.mem_cons, lastOf, ih]
+    tauto
+
+/-! affine facts -/
+
+theorem lerp2_zero (A B : Pt) : lerp2 A B 0 = A := by
+  obtain ⟨x, y⟩ := A; simp [lerp2]
+
+theorem lerp2_one (A B : Pt) : lerp2 A B 1 = B := by
+  obtain ⟨x, y⟩ := A; obtain ⟨x', y'⟩ := B; simp [lerp2]
+
+theorem eval_lerp2 (h : HP) (A B : Pt) (r : Rat) :
+    h.eval (lerp2 A B r) = h.eval A + r * (h.eval B - h.eval A) := by
+  simp only [HP.eval, lerp2]; ring
+
+theorem leftOf_lerp2 (A B C D : Pt) (r : Rat) :
+    leftOf A B (lerp2 C D r) = leftOf A B C + r * (leftOf A B D - leftOf A B C) := by
+  simp only [leftOf, cross, Pt.sub, lerp2]; ring
+
+theorem inPoly_lerp2 (poly : List Pt) (C D : Pt) (r : Rat) (hC : InPoly poly C) (hD : InPoly poly D)
+    (h0 : 0 ≤ r) (h1 : r ≤ 1) : InPoly poly (lerp2 C D r) := by
+  intro e he
+  rw [leftOf_lerp2]
+  have a := hC e he
+  have b := hD e he
+  nlinarith [mul_nonneg h0 b, mul_nonneg (sub_nonneg.mpr h1) a]
+
+/-- the crossing ratio of an edge that properly crosses the line -/
+theorem cross_ratio (fp fq : Rat) (hc : (fp < 0 ∧ 0 < fq) ∨ (0 < fp ∧ fq < 0)) :
+    0 ≤ fp / (fp - fq) ∧ fp / (fp - fq) ≤ 1 ∧ fp + fp / (fp - fq) * (fq - fp) = 0 ∧
+      (0 < fq → fp / (fp - fq) < 1) := by
+  have hne : fp - fq ≠ 0 := by rcases hc with ⟨a, b⟩ | ⟨a, b⟩ <;> intro e <;> linarith
+  refine ⟨?_, ?_, ratio_cancel fp fq hne, ?_⟩
+  · rcases hc with ⟨a, b⟩ | ⟨a, b⟩
+    · exact div_nonneg_of_nonpos a.le (by linarith)
+    · exact div_nonneg a.le (by linarith)
+  · rcases hc with ⟨a, b⟩ | ⟨a, b⟩
+    · rw [div_le_one_of_neg (by linarith)]; linarith
+    · rw [div_le_one (by linarith)]; linarith
+  · intro hq
+    rcases hc with ⟨a, b⟩ | ⟨a, b⟩
+    · rw [div_lt_one_of_neg (by linarith)]; linarith
+    · linarith
+
+section Clip
+variable (poly : List Pt) (h : HP)
+
+/-- "to the left of `U → W`" follows from "in the polygon and in the half-plane" -/
+def Good (U W : Pt) : Prop := ∀ X, InPoly poly X → h.eval X ≤ 0 → 0 ≤ leftOf U W X
+
+/-- a point of the clipping line on an edge whose end point is strictly outside -/
+def ExitPt (U : Pt) : Prop :=
+  h.eval U = 0 ∧ ∃ e ∈ edges poly, ∃ r : Rat, 0 ≤ r ∧ r < 1 ∧ U = lerp2 e.1 e.2 r ∧ 0 < h.eval e.2
+
+theorem good_subseg (A B : Pt) (he : (A, B) ∈ edges poly) (r1 r2 : Rat) (h12 : r1 ≤ r2) :
+    Good poly h (lerp2 A B r1) (lerp2 A B r2) := by
+  intro X hX _
+  have : leftOf (lerp2 A B r1) (lerp2 A B r2) X = (r2 - r1) * leftOf A B X := by
+    simp only [leftOf, cross, Pt.sub, lerp2]; ring
+  rw [this]
+  exact mul_nonneg (by linarith) (hX (A, B) he)
+
+theorem good_chord (U W : Pt) (hU : ExitPt poly h U) (hW : InPoly poly W) (hW0 : h.eval W = 0) :
+    Good poly h U W := by
+  obtain ⟨hU0, ⟨A, B⟩, he, r, hr0, hr1, rfl, hB⟩ := hU
+  intro X _ hX0
+  have hWl := hW (A, B) he
+  simp only at hWl hB
+  have id1 : (h.eval W - h.eval (lerp2 A B r)) * cross (X.sub (lerp2 A B r)) (B.sub (lerp2 A B r))
+      + (h.eval X - h.eval (lerp2 A B r)) * cross (B.sub (lerp2 A B r)) (W.sub (lerp2 A B r))
+      + (h.eval B - h.eval (lerp2 A B r)) * leftOf (lerp2 A B r) W X = 0 := by
+    simp only [HP.eval, leftOf, cross, Pt.sub, lerp2]; ring
+  have id2 : cross (B.sub (lerp2 A B r)) (W.sub (lerp2 A B r)) = (1 - r) * leftOf A B W := by
+    simp only [leftOf, cross, Pt.sub, lerp2]; ring
+  rw [hW0, hU0, id2] at id1
+  have hprod : 0 ≤ h.eval B * leftOf (lerp2 A B r) W X := by
+    have : 0 ≤ (-h.eval X) * ((1 - r) * leftOf A B W) :=
+      mul_nonneg (by linarith) (mul_nonneg (by linarith) hWl)
+    linarith
+  exact (mul_nonneg_iff_of_pos_left hB).mp hprod
+
+def Chain (R : Pt → Pt → Prop) : List Pt → Prop
+  | [] => True
+  | [_] => True
+  | a :: b :: r => R a b ∧ Chain R (b :: r)
+
+theorem chain_snoc (R : Pt → Pt → Prop) (O : List Pt) (y : Pt) :
+    Chain R (O ++ [y]) ↔ Chain R O ∧ ∀ L, O.getLast? = some L → R L y := by
+  induction O with
+  | nil => simp [Chain]
+  | cons a r ih =>
+    cases r with
+    | nil => simp [Chain]
+    | cons b r =>
+      simp only [List.cons_append, Chain] at ih ⊢
+      rw [ih]
+      simp only [List.getLast?_cons_cons]
+      tauto
+
+theorem chain_iff_zp (R : Pt → Pt → Prop) (a : Pt) (r : List Pt) :
+    Chain R (a :: r) ↔ ∀ e ∈ zp a r, R e.1 e.2 := by
+  induction r generalizing a with
+  | nil => simp [Chain, zp]
+  | cons b r ih =>
+    simp only [Chain, zp, List.mem_cons, forall_eq_or_imp, ih]
+
+theorem getLast?_eq_lastOf (a : Pt) (r : List Pt) : (a :: r).getLast? = some (lastOf a r) := by
+  induction r generalizing a with
+  | nil => rfl
+  | cons b r ih => rw [List.getLast?_cons_cons, ih]; rfl
+
+def FirstOK (a0 F : Pt) : Prop :=
+  (h.eval a0 ≤ 0 ∧ F = a0) ∨ (0 < h.eval a0 ∧ InPoly poly F ∧ h.eval F = 0)
+
+/-- invariant of the walk: `O` = output so far, `v` = the vertex the walk has reached -/
+structure Inv (a0 : Pt) (O : List Pt) (v : Pt) : Prop where
+  chain : Chain (Good poly h) O
+  mem : ∀ Y ∈ O, InPoly poly Y ∧ h.eval Y ≤ 0
+  first : ∀ F, O.head? = some F → FirstOK poly h a0 F
+  empty : O = [] → v = a0 ∨ (0 < h.eval a0 ∧ 0 ≤ h.eval v)
+  last : ∀ L, O.getLast? = some L →
+    (h.eval v ≤ 0 → Good poly h L v) ∧ (0 < h.eval v → ExitPt poly h L)
+
+/-- emitting one vertex -/
+theorem inv_emit (a0 : Pt) (O : List Pt) (v y w : Pt) (I : Inv poly h a0 O v)
+    (hy : InPoly poly y ∧ h.eval y ≤ 0)
+    (hjoin : ∀ L, O.getLast? = some L → Good poly h L y)
+    (hfirst : O = [] → FirstOK poly h a0 y)
+    (hlast : (h.eval w ≤ 0 → Good poly h y w) ∧ (0 < h.eval w → ExitPt poly h y)) :
+    Inv poly h a0 (O ++ [y]) w where
+  chain := (chain_snoc _ O y).mpr ⟨I.chain, hjoin⟩
+  mem := by
+    intro Y hY
+    rcases List.mem_append.mp hY with hY | hY
+    · exact I.mem Y hY
+    · rw [List.mem_singleton.mp hY]; exact hy
+  first := by
+    intro F hF
+    cases O with
+    | nil => simp only [List.nil_append, List.head?_cons, Option.some.injEq] at hF; rw [← hF]; exact hfirst rfl
+    | cons a r => simp only [List.cons_append, List.head?_cons, Option.some.injEq] at hF; exact I.first F (by simp [hF])
+  empty := by intro hO; simp at hO
+  last := by
+    intro L hL
+    rw [List.getLast?_append] at hL
+    simp only [List.getLast?_singleton, Option.some_or, Option.some.injEq] at hL
+    rw [← hL]; exact hlast
+
+
+/-- one edge `A → B` of the polygon -/
+theorem inv_step (hc : ConvexCCW poly) (a0 : Pt) (O : List Pt) (A B : Pt)
+    (he : (A, B) ∈ edges poly) (I : Inv poly h a0 O A) :
+    Inv poly h a0 (O ++ shEdge2 h A B) B := by
+  obtain ⟨hAm, hBm⟩ := mem_of_mem_edges poly (A, B) he
+  have hA : InPoly poly A := hc A hAm
+  have hB : InPoly poly B := hc B hBm
+  simp only [shEdge2]
+  by_cases hp : h.eval A ≤ 0
+  · -- `A` is emitted
+    have hfirstA : O = [] → FirstOK poly h a0 A := by
+      intro hO
+      rcases I.empty hO with e | ⟨e1, e2⟩
+      · left; exact ⟨e ▸ hp, e⟩
+      · right; exact ⟨e1, hA, le_antisymm hp e2⟩
+    have hjoinA : ∀ L, O.getLast? = some L → Good poly h L A := fun L hL => (I.last L hL).1 hp
+    by_cases hx : (h.eval A < 0 ∧ 0 < h.eval B) ∨ (0 < h.eval A ∧ h.eval B < 0)
+    · -- … and the exit crossing
+      have hx' : h.eval A < 0 ∧ 0 < h.eval B := by
+        rcases hx with h1 | h1
+        · exact h1
+        · exact absurd h1.1 (not_lt.mpr hp)
+      obtain ⟨t0, t1, tz, tlt⟩ := cross_ratio _ _ hx
+      simp only [hp, if_true, hx]
+      have I1 : Inv poly h a0 (O ++ [A]) (lerp2 A B (h.eval A / (h.eval A - h.eval B))) := by
+        refine inv_emit poly h a0 O A A _ I ⟨hA, hp⟩ hjoinA hfirstA ⟨fun _ => ?_, fun hpos => ?_⟩
+        · have := good_subseg poly h A B he 0 _ t0
+          rwa [lerp2_zero] at this
+        · rw [eval_lerp2, tz] at hpos; exact absurd hpos (lt_irrefl _)
+      have hc0 : h.eval (lerp2 A B (h.eval A / (h.eval A - h.eval B))) = 0 := by rw [eval_lerp2, tz]
+      have I2 := inv_emit poly h a0 (O ++ [A]) _ (lerp2 A B (h.eval A / (h.eval A - h.eval B))) B I1
+        ⟨inPoly_lerp2 poly A B _ hA hB t0 t1, hc0.le⟩
+        (by
+          intro L hL
+          rw [List.getLast?_append] at hL
+          simp only [List.getLast?_singleton, Option.some_or, Option.some.injEq] at hL
+          rw [← hL]
+          have := good_subseg poly h A B he 0 _ t0
+          rwa [lerp2_zero] at this)
+        (by intro hO; simp at hO)
+        ⟨fun hle => absurd hx'.2 (not_lt.mpr hle),
+         fun _ => ⟨hc0, (A, B), he, _, t0, tlt hx'.2, rfl, hx'.2⟩⟩
+      simpa [List.append_assoc] using I2
+    · -- no crossing
+      simp only [hp, if_true, hx, if_false, List.append_nil]
+      refine inv_emit poly h a0 O A A B I ⟨hA, hp⟩ hjoinA hfirstA ⟨fun _ => ?_, fun hpos => ?_⟩
+      · have := good_subseg poly h A B he 0 1 (by norm_num)
+        rwa [lerp2_zero, lerp2_one] at this
+      · have hA0 : h.eval A = 0 := by
+          by_contra hne
+          exact hx (Or.inl ⟨lt_of_le_of_ne hp hne, hpos⟩)
+        exact ⟨hA0, (A, B), he, 0, le_refl _, by norm_num, (lerp2_zero A B).symm, hpos⟩
+  · -- `A` is strictly outside
+    have hpos : 0 < h.eval A := not_le.mp hp
+    by_cases hx : (h.eval A < 0 ∧ 0 < h.eval B) ∨ (0 < h.eval A ∧ h.eval B < 0)
+    · have hx' : 0 < h.eval A ∧ h.eval B < 0 := by
+        rcases hx with h1 | h1
+        · exact absurd h1.1 (not_lt.mpr hpos.le)
+        · exact h1
+      obtain ⟨t0, t1, tz, _⟩ := cross_ratio _ _ hx
+      have hc0 : h.eval (lerp2 A B (h.eval A / (h.eval A - h.eval B))) = 0 := by rw [eval_lerp2, tz]
+      have hcP := inPoly_lerp2 poly A B _ hA hB t0 t1
+      simp only [hp, if_false, hx, if_true, List.nil_append]
+      refine inv_emit poly h a0 O A _ B I ⟨hcP, hc0.le⟩ ?_ ?_ ⟨fun _ => ?_, fun hB0 => ?_⟩
+      · intro L hL
+        exact good_chord poly h L _ ((I.last L hL).2 hpos) hcP hc0
+      · intro hO
+        right
+        refine ⟨?_, hcP, hc0⟩
+        rcases I.empty hO with e | ⟨e1, _⟩
+        · rw [← e]; exact hpos
+        · exact e1
+      · have := good_subseg poly h A B he _ 1 t1
+        rwa [lerp2_one] at this
+      · exact absurd hB0 (not_lt.mpr hx'.2.le)
+    · -- nothing is emitted
+      have hq : 0 ≤ h.eval B := by
+        by_contra hneg
+        exact hx (Or.inr ⟨hpos, not_le.mp hneg⟩)
+      simp only [hp, if_false, hx, List.append_nil]
+      exact {
+        chain := I.chain
+        mem := I.mem
+        first := I.first
+        empty := by
+          intro hO
+          right
+          rcases I.empty hO with e | ⟨e1, _⟩
+          · exact ⟨e ▸ hpos, hq⟩
+          · exact ⟨e1, hq⟩
+        last := by
+          intro L hL
+          have hE := (I.last L hL).2 hpos
+          exact ⟨fun hle => good_chord poly h L B hE hB (le_antisymm hle hq), fun _ => hE⟩ }
+
+theorem inv_walk (hc : ConvexCCW poly) (a0 : Pt) (ns : List Pt) (cur : Pt) (O : List Pt)
+    (hes : ∀ e ∈ zp cur ns, e ∈ edges poly) (I : Inv poly h a0 O cur) :
+    Inv poly h a0 (O ++ walk2 h cur ns) (lastOf cur ns) := by
+  induction ns generalizing cur O with
+  | nil => simpa [walk2, lastOf] using I
+  | cons n r ih =>
+    simp only [walk2, lastOf, ← List.append_assoc]
+    apply ih n (O ++ shEdge2 h cur n) (fun e he => hes e (by simp [zp, he]))
+    exact inv_step poly h hc a0 O cur n (hes (cur, n) (by simp [zp])) I
+
+/-- the invariant at the end of the walk around a convex counter-clockwise polygon -/
+theorem inv_final (hc : ConvexCCW poly) (a : Pt) (rest : List Pt) (hpoly : poly = a :: rest) :
+    Inv poly h a (shClip12 h poly) a := by
+  have I0 : Inv poly h a [] a :=
+    ⟨trivial, fun Y hY => (by cases hY), fun F hF => (by cases hF), fun _ => Or.inl rfl,
+      fun L hL => (by cases hL)⟩
+  have := inv_walk poly h hc a (rest ++ [a]) a [] (by
+    intro e he; rw [hpoly, edges_eq_zp]; exact he) I0
+  rw [lastOf_append_singleton] at this
+  simpa [hpoly, shClip12] using this
+
+/-- every edge of the clipped polygon has the points of (polygon ∩ half-plane) on its left -/
+theorem clip_edges_good (hc : ConvexCCW poly) (e : Pt × Pt) (he : e ∈ edges (shClip12 h poly)) :
+    Good poly h e.1 e.2 := by
+  cases hpoly : poly with
+  | nil => rw [hpoly] at he; cases he
+  | cons a rest =>
+    have I := inv_final poly h hc a rest hpoly
+    rw [← hpoly]
+    cases hout : shClip12 h poly with
+    | nil => rw [hout] at he; cases he
+    | cons F r =>
+      rw [hout] at he I
+      rw [edges_eq_zp, zp_append_singleton] at he
+      rcases he with he | he
+      · exact (chain_iff_zp _ F r).mp I.chain e he
+      · rw [he]
+        have hL := getLast?_eq_lastOf F r
+        obtain ⟨l1, l2⟩ := I.last _ hL
+        rcases I.first F rfl with ⟨h1, h2⟩ | ⟨h1, h2, h3⟩
+        · have g := l1 h1
+          rw [← h2] at g
+          exact g
+        · exact good_chord poly h _ F (l2 h1) h2 h3
+
+end Clip
+
+
+/-! soundness in the plane (no convexity needed) and the link with the 3d algorithm -/
+
+theorem mem_shEdge2 (h : HP) (P Q X : Pt) (hX : X ∈ shEdge2 h P Q) :
+    (X = P ∧ h.eval P ≤ 0) ∨
+      (X = lerp2 P Q (h.eval P / (h.eval P - h.eval Q)) ∧
+        ((h.eval P < 0 ∧ 0 < h.eval Q) ∨ (0 < h.eval P ∧ h.eval Q < 0))) := by
+  simp only [shEdge2, List.mem_append] at hX
+  rcases hX with hX | hX
+  · split_ifs at hX with h1
+    · left; exact ⟨List.mem_singleton.mp hX, h1⟩
+    · cases hX
+  · split_ifs at hX with h1
+    · right; exact ⟨List.mem_singleton.mp hX, h1⟩
+    · cases hX
+
+theorem mem_walk2 (h : HP) (cur : Pt) (ns : List Pt) (X : Pt) (hX : X ∈ walk2 h cur ns) :
+    ∃ P ∈ cur :: ns, ∃ Q ∈ cur :: ns, X ∈ shEdge2 h P Q := by
+  induction ns generalizing cur with
+  | nil => cases hX
+  | cons n r ih =>
+    simp only [walk2, List.mem_append] at hX
+    rcases hX with hX | hX
+    · exact ⟨cur, by simp, n, by simp, hX⟩
+    · obtain ⟨P, hP, Q, hQ, hXe⟩ := ih n hX
+      exact ⟨P, List.mem_cons_of_mem _ hP, Q, List.mem_cons_of_mem _ hQ, hXe⟩
+
+theorem mem_shClip12 (h : HP) (poly : List Pt) (X : Pt) (hX : X ∈ shClip12 h poly) :
+    ∃ P ∈ poly, ∃ Q ∈ poly, X ∈ shEdge2 h P Q := by
+  cases poly with
+  | nil => cases hX
+  | cons a rest =>
+    obtain ⟨P, hP, Q, hQ, hXe⟩ := mem_walk2 h a (rest ++ [a]) X hX
+    have fix : ∀ Z, Z ∈ a :: (rest ++ [a]) → Z ∈ a :: rest := by
+      intro Z hZ
+      simp only [List.mem_cons, List.mem_append] at hZ ⊢
+      tauto
+    exact ⟨P, fix P hP, Q, fix Q hQ, hXe⟩
+
+/-- every output vertex satisfies the clipping half-plane -/
+theorem shClip12_sound (h : HP) (poly : List Pt) (X : Pt) (hX : X ∈ shClip12 h poly) : h.eval X ≤ 0 := by
+  obtain ⟨P, _, Q, _, hXe⟩ := mem_shClip12 h poly X hX
+  rcases mem_shEdge2 h P Q X hXe with ⟨rfl, h1⟩ | ⟨rfl, h1⟩
+  · exact h1
+  · rw [eval_lerp2, (cross_ratio _ _ h1).2.2.1]
+
+/-- an affine constraint `0 ≤ φ` satisfied by all input vertices is satisfied by all output vertices -/
+theorem shClip12_preserves (h : HP) (poly : List Pt) (φ : Pt → Rat)
+    (haff : ∀ C D r, φ (lerp2 C D r) = φ C + r * (φ D - φ C)) (hφ : ∀ P ∈ poly, 0 ≤ φ P)
+    (X : Pt) (hX : X ∈ shClip12 h poly) : 0 ≤ φ X := by
+  obtain ⟨P, hP, Q, hQ, hXe⟩ := mem_shClip12 h poly X hX
+  rcases mem_shEdge2 h P Q X hXe with ⟨rfl, _⟩ | ⟨rfl, h1⟩
+  · exact hφ _ hP
+  · obtain ⟨t0, t1, _, _⟩ := cross_ratio _ _ h1
+    rw [haff]
+    nlinarith [mul_nonneg t0 (hφ Q hQ), mul_nonneg (sub_nonneg.mpr t1) (hφ P hP)]
+
+theorem shClip2_preserves (hs : List HP) (poly : List Pt) (φ : Pt → Rat)
+    (haff : ∀ C D r, φ (lerp2 C D r) = φ C + r * (φ D - φ C)) (hφ : ∀ P ∈ poly, 0 ≤ φ P)
+    (X : Pt) (hX : X ∈ shClip2 hs poly) : 0 ≤ φ X := by
+  induction hs generalizing poly with
+  | nil => exact hφ X hX
+  | cons h hs ih => exact ih (shClip12 h poly) (shClip12_preserves h poly φ haff hφ) hX
+
+theorem eval_embed (O U V : P3) (h : HS) (p : Pt) :
+    h.eval (embed O U V p) = (pullHS O U V h).eval p := by
+  simp only [HS.eval, HP.eval, embed, pullHS]; ring
+
+theorem lerp3_embed (O U V : P3) (P Q : Pt) (t : Rat) :
+    lerp3 (embed O U V P) (embed O U V Q) t = embed O U V (lerp2 P Q t) := by
+  simp only [lerp3, embed, lerp2, P3.mk.injEq]
+  refine ⟨by ring, by ring, by ring⟩
+
+theorem shEdge_embed (O U V : P3) (h : HS) (P Q : Pt) :
+    shEdge h (embed O U V P) (embed O U V Q) = (shEdge2 (pullHS O U V h) P Q).map (embed O U V) := by
+  simp only [shEdge, shEdge2, eval_embed, lerp3_embed]
+  split_ifs <;> simp
+
+theorem shAux_embed (O U V : P3) (h : HS) (f a : Pt) (rest : List Pt) :
+    shAux h (embed O U V f) ((a :: rest).map (embed O U V))
+      = (walk2 (pullHS O U V h) a (rest ++ [f])).map (embed O U V) := by
+  induction rest generalizing a with
+  | nil => simp [shAux, walk2, shEdge_embed]
+  | cons b r ih =>
+    have := ih b
+    simp only [List.map_cons] at this
+    simp only [List.map_cons, shAux, List.cons_append, walk2, List.map_append, shEdge_embed, this]
+
+theorem shClip1_embed (O U V : P3) (h : HS) (poly : List Pt) :
+    shClip1 h (poly.map (embed O U V)) = (shClip12 (pullHS O U V h) poly).map (embed O U V) := by
+  cases poly with
+  | nil => rfl
+  | cons a rest =>
+    have := shAux_embed O U V h a a rest
+    simp only [List.map_cons] at this
+    simp only [List.map_cons, shClip1, shClip12, this]
 
 end PorepyVerif.C44
